@@ -479,12 +479,72 @@ def build_inlined_view(c):
             nb = bool_tuple_matches_as_ifs(t['body'])
             if any(isinstance(x, dict) and x.get('synthetic') == 'bool-tuple-match' for x in _all_nodes(nb)):
                 nt = dict(t); nt['body'] = nb; c.ithir[name] = nt
+    # guards that end an iteration early read as if / else (library crate: the tokenizer's chain over the capture groups)
+    if c.name == 'rsbdd' and c.kind in ('rlib', 'lib'):
+        for name, t in list(c.ithir.items()):
+            if any(x.get('k') == 'Continue' for x in walk(t['body'])):
+                nb = continues_as_else(t['body'])
+                if any(isinstance(x, dict) and x.get('synthetic') == 'continue-guard' for x in _all_nodes(nb)):
+                    nt = dict(t); nt['body'] = nb; c.ithir[name] = nt
     # counting while loops read as the `for` loops they spell out
     for name, t in list(c.ithir.items()):
         if any(x.get('k') == 'Loop' and 'ForLoop' not in str(x.get('exp')) for x in walk(t['body'])):
             nb = counting_whiles_as_for(t['body'])
             if any(isinstance(x, dict) and x.get('synthetic') == 'counting-while' for x in _all_nodes(nb)):
                 nt = dict(t); nt['body'] = nb; c.ithir[name] = nt
+
+def continues_as_else(body):
+    """a copy of a function body in which, directly in the body block of a `for` loop, a guard that ends the iteration reads as the
+    branching it abbreviates:   if C { A; continue; } REST   =>   if C { A } else { REST }   (also `if let`).
+    Only a bare `continue` as the last action of the guarded block, which holds no other continue / break, is rewritten."""
+    import copy
+    def peel(x):
+        while isinstance(x, dict) and (x.get('k') in ('Use', 'NeverToAny') or (x.get('k') == 'Block' and not x.get('stmts') and x.get('expr') is not None)):
+            x = x.get('source') if x['k'] != 'Block' else x['expr']
+        return x
+    def guarded_part(blk):
+        b = blk
+        while b.get('k') in ('Use', 'NeverToAny'): b = b['source']
+        if b.get('k') != 'Block': return None
+        stmts = list(b['stmts']); tail = b.get('expr'); last = None
+        if tail is not None: last = peel(tail)
+        elif stmts and stmts[-1]['k'] == 'Expr': last = peel(stmts[-1]['expr']); stmts = stmts[:-1]
+        if last is None or last.get('k') != 'Continue': return None
+        for st in stmts:
+            for y in walk(st.get('expr') or st.get('init') or {'k': 'Tuple', 'fields': []}):
+                if y['k'] in ('Continue', 'Break', 'Loop'): return None
+        return {'k': 'Block', 'stmts': stmts, 'expr': None, 'loc': b.get('loc'), 'ty': b.get('ty'), 'synthetic': 'continue-guard-body'}
+    def rw_block(b, top=True):
+        stmts = b['stmts']
+        if top:
+            # all or nothing: a bare `if` among the guards whose block does not end the iteration falls through to the statements after it,
+            # which the if / else reading would hide - such a body is left as written
+            for st in stmts:
+                y = peel(st['expr']) if st['k'] == 'Expr' else None
+                if y is not None and y.get('k') == 'If' and y.get('else') is None and guarded_part(y['then']) is None: return b
+        for i, st in enumerate(stmts):
+            if st['k'] != 'Expr': continue
+            y = peel(st['expr'])
+            if y.get('k') != 'If' or y.get('else') is not None: continue
+            g = guarded_part(y['then'])
+            if g is None: continue
+            rest = rw_block({'k': 'Block', 'stmts': stmts[i + 1:], 'expr': b.get('expr'), 'loc': b.get('loc'), 'ty': b.get('ty'), 'synthetic': 'after-continue-guard'}, False)
+            nif = dict(y); nif['then'] = g; nif['else'] = rest; nif['synthetic'] = 'continue-guard'
+            out = dict(b); out['stmts'] = stmts[:i]; out['expr'] = nif
+            return out
+        return b
+    body = copy.deepcopy(body)
+    for m in walk(body):
+        if m['k'] != 'Match' or m.get('source') != 'ForLoopDesugar': continue
+        for a in m['arms']:
+            q = a['pat']
+            while q.get('k') in ('Deref', 'DerefPattern', 'AscribeUserType'): q = q.get('sub') or q.get('subpattern')
+            if not (q.get('k') == 'Variant' and q.get('variant') == 'Some'): continue
+            holder, key = a, 'body'
+            blk = a['body']
+            while blk.get('k') in ('Use', 'NeverToAny'): holder, key = blk, 'source'; blk = blk['source']
+            if blk.get('k') == 'Block': holder[key] = rw_block(blk)
+    return body
 
 def args_as_fields(c):
     """`let Args { model, input, .. } = Args::parse();` reads as `let args = Args::parse();` with every use of an (immutable) destructured
